@@ -17,7 +17,11 @@ def run(title, schedule, expect_open):
     print(title)
     h = rp.PoolHarness(K)
     for a in schedule:
-        h.do(a)
+        try:
+            h.do(a)
+        except rp.HarnessRefusal as ex:
+            print("  %-18s not possible on this code: %s" % (a["name"], ex))
+            continue
         p = h.project()
         print("  %-18s r=%s c=%s f=%-5s | cur=%s trash=%s closed=%s in_flight=%s shutdown=%s st=%s" % (
             a["name"], a["r"], a["c"], a["f"], p["cur"], sorted(p["trash"]), p["closed"], p["inflight"], p["shutdown"], p["st"]))
